@@ -70,6 +70,16 @@ def opGin (j : Json) : P Json := do
     let mut out : Array Json := #[]
     for o in ← asArr (fldD j "ops" (Json.arr #[])) do
       let k ← asStr (← fld o "k")
+      if k == "reorder" then
+        -- the game is stored and restored with the hands written in another order (harness only; answers nothing):
+        -- the lists must hold exactly the cards of the current hands
+        let p1 ← asCards (← fld o "p1")
+        let p2 ← asCards (← fld o "p2")
+        if p1.length != g.p1.length || p2.length != g.p2.length || !(p1.all (· ∈ g.p1)) || !(p2.all (· ∈ g.p2))
+            || !(g.p1.all (· ∈ p1)) || !(g.p2.all (· ∈ p2)) then
+          throw "reorder: not the cards of the hands"
+        g := { g with p1 := p1, p2 := p2 }
+        continue
       let probe ← asBool (fldD o "probe" (Json.bool false))
       let r : Except Err GState ← match k with
         | "pass" => pure g.firstTurnPass
